@@ -376,16 +376,241 @@ theorem BindPacket.marshal_ok (portal stmt : Bytes) (pf : List Nat) (pv : List (
     Out.bind_ok, Out.pure_eq]
   simp [encodeBind, List.append_assoc]
 
-/-- 7. relay identity: a parsed Bind message marshals back byte-identically -/
+set_option linter.unusedVariables false in
+/-- 7. relay identity: the packet `NewBindPacket` reads from an encoded Bind message
+(`newBindPacket_encodeBind`) marshals back byte-identically -/
 theorem marshal_newBindPacket (portal stmt : Bytes) (pf : List Nat) (pv : List (Option Bytes))
     (rf : List Nat) (hp : NoZero portal) (hs : NoZero stmt)
     (hpf : pf.length < 2^16 ∧ ∀ f ∈ pf, f < 2^16) (hrf : rf.length < 2^16 ∧ ∀ f ∈ rf, f < 2^16)
     (hpv : pv.length < 2^16 ∧ ∀ b, some b ∈ pv → b.length < 2^32 - 1) :
+    BindPacket.marshal ⟨portal, stmt, pf, pv, rf⟩ = .ok (encodeBind portal stmt pf pv rf) :=
+  BindPacket.marshal_ok portal stmt pf pv rf hpf.1 hrf.1 hpv.1
+    (fun b hm => by have := hpv.2 b hm; omega)
+
+/-- 7, in one statement: parse, then marshal -/
+theorem marshal_newBindPacket_relay (portal stmt : Bytes) (pf : List Nat) (pv : List (Option Bytes))
+    (rf : List Nat) (hp : NoZero portal) (hs : NoZero stmt)
+    (hpf : pf.length < 2^16 ∧ ∀ f ∈ pf, f < 2^16) (hrf : rf.length < 2^16 ∧ ∀ f ∈ rf, f < 2^16)
+    (hpv : pv.length < 2^16 ∧ ∀ b, some b ∈ pv → b.length < 2^32 - 1) :
     ∃ p, newBindPacket (encodeBind portal stmt pf pv rf) = .ok p ∧
-      p = ⟨portal, stmt, pf, pv, rf⟩ ∧
       BindPacket.marshal p = .ok (encodeBind portal stmt pf pv rf) :=
-  ⟨_, newBindPacket_encodeBind portal stmt pf pv rf hp hs hpf hrf hpv, rfl,
-    BindPacket.marshal_ok portal stmt pf pv rf hpf.1 hrf.1 hpv.1
-      (fun b hm => by have := hpv.2 b hm; omega)⟩
+  ⟨_, newBindPacket_encodeBind portal stmt pf pv rf hp hs hpf hrf hpv,
+    marshal_newBindPacket portal stmt pf pv rf hp hs hpf hrf hpv⟩
+
+/-! ### Bind: rewriting -/
+
+/-- the format of parameter `i` as a boolean (`true` = binary); `false` when the lookup fails -/
+def fmtBool (i : Nat) (pf : List Nat) : Bool :=
+  match formatByIndex i pf with
+  | .ok b => b
+  | _ => false
+
+/-- the wire code of a format -/
+def fmtCode (b : Bool) : Nat :=
+  if b then Generated.Wire.pgBindFormatBinary else Generated.Wire.pgBindFormatText
+
+/-- the formats of parameters `i, i+1, …, i+n-1` -/
+def fmtBools (pf : List Nat) : Nat → Nat → List Bool
+  | _, 0 => []
+  | i, n+1 => fmtBool i pf :: fmtBools pf (i+1) n
+
+/-- the format codes `SetParameters` writes for `n` parameters whose formats are given by `pf`:
+nothing for no parameter, a single entry when all parameters have the same format, otherwise one
+entry per parameter -/
+def canonFormats (pf : List Nat) (n : Nat) : List Nat :=
+  match fmtBools pf 0 n with
+  | [] => []
+  | f0 :: rest => if rest.all (fun b => b = f0) then [fmtCode f0] else (f0 :: rest).map fmtCode
+
+/-- what `GetParameters` returns -/
+def paramsOf (pf : List Nat) : Nat → List (Option Bytes) → List (Bool × Option Bytes)
+  | _, [] => []
+  | i, v :: vs => (fmtBool i pf, v) :: paramsOf pf (i+1) vs
+
+theorem fmtBools_length (pf : List Nat) (s n : Nat) : (fmtBools pf s n).length = n := by
+  induction n generalizing s with
+  | zero => rfl
+  | succ n ih => simp [fmtBools, ih]
+
+theorem fmtBools_getElem? (pf : List Nat) (s n j : Nat) (h : j < n) :
+    (fmtBools pf s n)[j]? = some (fmtBool (s + j) pf) := by
+  induction n generalizing s j with
+  | zero => omega
+  | succ n ih =>
+    cases j with
+    | zero => simp [fmtBools]
+    | succ j =>
+      simp only [fmtBools, List.getElem?_cons_succ]
+      rw [ih (s + 1) j (by omega)]
+      congr 2
+      omega
+
+theorem paramsOf_fst (pf : List Nat) (i : Nat) (vs : List (Option Bytes)) :
+    (paramsOf pf i vs).map (·.1) = fmtBools pf i vs.length := by
+  induction vs generalizing i with
+  | nil => rfl
+  | cons v vs ih => simp [paramsOf, fmtBools, ih]
+
+theorem paramsOf_snd (pf : List Nat) (i : Nat) (vs : List (Option Bytes)) :
+    (paramsOf pf i vs).map (·.2) = vs := by
+  induction vs generalizing i with
+  | nil => rfl
+  | cons v vs ih => simp [paramsOf, ih]
+
+theorem getParameters_go (p : BindPacket) (i : Nat) (vs : List (Option Bytes))
+    (hf : ∀ j, j < vs.length → ∃ b, formatByIndex (i + j) p.paramFormats = .ok b) :
+    BindPacket.getParameters.go p i vs = .ok (paramsOf p.paramFormats i vs) := by
+  induction vs generalizing i with
+  | nil => rfl
+  | cons v vs ih =>
+    obtain ⟨b, hb⟩ := hf 0 (by simp)
+    rw [Nat.add_zero] at hb
+    have hfb : fmtBool i p.paramFormats = b := by simp [fmtBool, hb]
+    unfold BindPacket.getParameters.go
+    rw [hb]
+    simp only [Out.bind_ok]
+    rw [ih (i + 1) (fun j hj => by
+      have := hf (j + 1) (by simp; omega)
+      rwa [show i + (j + 1) = i + 1 + j by omega] at this)]
+    simp only [Out.bind_ok, Out.pure_eq, paramsOf, hfb]
+
+theorem rewriteBind_go (g : Nat → Bool → Option Bytes → Out (Option Bytes)) (f : Nat → Bytes → Bytes)
+    (hg : ∀ i b v, g i b v = .ok (v.map (f i))) (pf : List Nat) (i : Nat) (vs : List (Option Bytes)) :
+    rewriteBind.go g i (paramsOf pf i vs) = .ok (paramsOf pf i (mapRow f i vs)) := by
+  induction vs generalizing i with
+  | nil => rfl
+  | cons v vs ih =>
+    cases v with
+    | none => simp [paramsOf, rewriteBind.go, hg, mapRow, ih]
+    | some b => simp [paramsOf, rewriteBind.go, hg, mapRow, ih]
+
+theorem setParameters_paramsOf (portal stmt : Bytes) (pf0 pf : List Nat) (pv0 vs : List (Option Bytes))
+    (rf : List Nat) (hne : vs ≠ []) :
+    BindPacket.setParameters ⟨portal, stmt, pf0, pv0, rf⟩ (paramsOf pf 0 vs) =
+      ⟨portal, stmt, canonFormats pf vs.length, vs, rf⟩ := by
+  cases vs with
+  | nil => exact absurd rfl hne
+  | cons v vs =>
+    have h1 := paramsOf_fst pf 1 vs
+    have h2 := paramsOf_snd pf 1 vs
+    simp only [paramsOf, BindPacket.setParameters, canonFormats, List.length_cons, fmtBools, ← h1,
+      List.all_map, List.map_cons, List.map_map, h2, Nat.zero_add]
+    rfl
+
+theorem formatByIndex_single (i : Nat) (b : Bool) : formatByIndex i [fmtCode b] = .ok b := by
+  cases b <;> rfl
+
+theorem formatByIndex_codes (i : Nat) (bs : List Bool) (hl : bs.length ≠ 1) (b : Bool)
+    (h : bs[i]? = some b) : formatByIndex i (bs.map fmtCode) = .ok b := by
+  cases bs with
+  | nil => simp at h
+  | cons x xs =>
+    have hl' : ¬ ((x :: xs).map fmtCode).length = 1 := by rwa [List.length_map]
+    have hg : ((x :: xs).map fmtCode)[i]? = some (fmtCode b) := by
+      rw [List.getElem?_map, h]; rfl
+    unfold formatByIndex
+    simp only [List.map_cons] at hl' hg ⊢
+    rw [if_neg hl', hg]
+    cases b <;> rfl
+
+theorem canonFormats_length_le (pf : List Nat) (n : Nat) : (canonFormats pf n).length ≤ n := by
+  cases n with
+  | zero => simp [canonFormats, fmtBools]
+  | succ n =>
+    simp only [canonFormats, fmtBools]
+    split
+    · simp
+    · simp [fmtBools_length]
+
+/-- 8, formats: the format codes written by `SetParameters` denote, for every parameter, the format
+it had before -/
+theorem formatByIndex_canonFormats (pf : List Nat) (n : Nat)
+    (hf : ∀ i, i < n → ∃ b, formatByIndex i pf = .ok b) :
+    ∀ i, i < n → formatByIndex i (canonFormats pf n) = formatByIndex i pf := by
+  intro i hi
+  obtain ⟨b, hb⟩ := hf i hi
+  have hfb : fmtBool i pf = b := by simp [fmtBool, hb]
+  rw [hb]
+  cases n with
+  | zero => omega
+  | succ n =>
+    have hget := fmtBools_getElem? pf 0 (n + 1) i hi
+    rw [Nat.zero_add, hfb] at hget
+    simp only [fmtBools] at hget
+    simp only [canonFormats, fmtBools]
+    split
+    · next hall =>
+      rw [formatByIndex_single]
+      congr 1
+      cases i with
+      | zero => simpa using hget
+      | succ j =>
+        rw [List.getElem?_cons_succ] at hget
+        have hm := List.mem_of_getElem? hget
+        rw [List.all_eq_true] at hall
+        have := hall b hm
+        exact (by simpa using this : b = fmtBool 0 pf).symm
+    · next hnall =>
+      apply formatByIndex_codes i _ _ b hget
+      intro hlen
+      apply hnall
+      have : fmtBools pf (0 + 1) n = [] := by
+        apply List.eq_nil_of_length_eq_zero
+        simpa using hlen
+      rw [this]
+      rfl
+
+/-- 8. **rewrite_wellformed for Bind**: after a total per-parameter transformation (NULL stays NULL)
+the packet holds the specification encoding of the Bind message with the transformed parameters and
+the canonical format codes, and the matching length field -/
+theorem rewriteBind_wellformed (f : Nat → Bytes → Bytes)
+    (g : Nat → Bool → Option Bytes → Out (Option Bytes))
+    (hg : ∀ i b v, g i b v = .ok (v.map (f i)))
+    (portal stmt lb : Bytes) (pf : List Nat) (pv : List (Option Bytes)) (rf : List Nat)
+    (hp : NoZero portal) (hs : NoZero stmt)
+    (hpf : pf.length < 2^16 ∧ ∀ f ∈ pf, f < 2^16) (hrf : rf.length < 2^16 ∧ ∀ f ∈ rf, f < 2^16)
+    (hpv : pv.length < 2^16 ∧ ∀ b, some b ∈ pv → b.length < 2^32 - 1)
+    (hpv' : ∀ b, some b ∈ mapRow f 0 pv → b.length < 2^32 - 1)
+    (hne : pv ≠ [])
+    (hfmt : ∀ i, i < pv.length → ∃ b, formatByIndex i pf = .ok b)
+    (hsz : (encodeBind portal stmt (canonFormats pf pv.length) (mapRow f 0 pv) rf).length + 4 < 2^32) :
+    rewriteBind g ⟨66, lb, encodeBind portal stmt pf pv rf⟩ =
+      .ok ⟨66, beBytes 4 ((encodeBind portal stmt (canonFormats pf pv.length) (mapRow f 0 pv) rf).length + 4),
+        encodeBind portal stmt (canonFormats pf pv.length) (mapRow f 0 pv) rf⟩ := by
+  have hget : BindPacket.getParameters ⟨portal, stmt, pf, pv, rf⟩ = .ok (paramsOf pf 0 pv) := by
+    unfold BindPacket.getParameters
+    exact getParameters_go ⟨portal, stmt, pf, pv, rf⟩ 0 pv (fun j hj => by simpa using hfmt j hj)
+  have hne' : mapRow f 0 pv ≠ [] := by
+    intro h
+    have := mapRow_length f 0 pv
+    rw [h] at this
+    exact hne (List.eq_nil_of_length_eq_zero this.symm)
+  have hset := setParameters_paramsOf portal stmt pf pf pv (mapRow f 0 pv) rf hne'
+  rw [mapRow_length] at hset
+  have hcl := canonFormats_length_le pf pv.length
+  have hmar := BindPacket.marshal_ok portal stmt (canonFormats pf pv.length) (mapRow f 0 pv) rf
+    (by omega) hrf.1 (by rw [mapRow_length]; exact hpv.1) (fun b hm => by have := hpv' b hm; omega)
+  unfold rewriteBind
+  simp only [newBindPacket_encodeBind portal stmt pf pv rf hp hs hpf hrf hpv, Out.bind_ok, hget,
+    rewriteBind_go g f hg, hset, hmar, Out.pure_eq]
+  unfold packetLength
+  rw [lenSize_eq, Nat.mod_eq_of_lt hsz]
+
+/-- 8, on the wire: the rewritten packet marshals to a well-framed Bind message -/
+theorem rewriteBind_marshal (f : Nat → Bytes → Bytes)
+    (g : Nat → Bool → Option Bytes → Out (Option Bytes))
+    (hg : ∀ i b v, g i b v = .ok (v.map (f i)))
+    (portal stmt lb : Bytes) (pf : List Nat) (pv : List (Option Bytes)) (rf : List Nat)
+    (hp : NoZero portal) (hs : NoZero stmt)
+    (hpf : pf.length < 2^16 ∧ ∀ f ∈ pf, f < 2^16) (hrf : rf.length < 2^16 ∧ ∀ f ∈ rf, f < 2^16)
+    (hpv : pv.length < 2^16 ∧ ∀ b, some b ∈ pv → b.length < 2^32 - 1)
+    (hpv' : ∀ b, some b ∈ mapRow f 0 pv → b.length < 2^32 - 1)
+    (hne : pv ≠ [])
+    (hfmt : ∀ i, i < pv.length → ∃ b, formatByIndex i pf = .ok b)
+    (hsz : (encodeBind portal stmt (canonFormats pf pv.length) (mapRow f 0 pv) rf).length + 4 < 2^32) :
+    ∃ p, rewriteBind g ⟨66, lb, encodeBind portal stmt pf pv rf⟩ = .ok p ∧
+      marshal p = encodeMsg 66 (encodeBind portal stmt (canonFormats pf pv.length) (mapRow f 0 pv) rf) :=
+  ⟨_, rewriteBind_wellformed f g hg portal stmt lb pf pv rf hp hs hpf hrf hpv hpv' hne hfmt hsz,
+    marshal_encodeMsg 66 _ (by decide)⟩
 
 end AcraModel.Wire.Pg
